@@ -190,6 +190,13 @@ func goBytes(b []byte) string {
 func tryReplay(l *Loaded, pc *PropConfig, r *FuncResult, d Discharge, dir string) replayResult {
 	rp, ok := replayers[r.Func]
 	if !ok {
+		for k, v := range replayers {
+			if strings.HasPrefix(k, "prefix:") && strings.HasPrefix(r.Func, k[7:]) {
+				rp, ok = v, true
+			}
+		}
+	}
+	if !ok {
 		return replayResult{why: "no replay template for " + r.Func}
 	}
 	tag := sanitize(d.Ob.Name)
@@ -904,6 +911,162 @@ func TestGocvReplay(t *testing.T) {
 	for _, fn := range []string{"(*kmipserver.BatchExecutor).handleRequest", "(*kmipserver.BatchExecutor).executeItem"} {
 		replayers[fn] = replayers["scenario:C09"]
 	}
+	// version negotiation (C13): exhaustive client subsets x server lists x server behaviours, scripted through a terminal middleware
+	replayers["scenario:C13"] = &Replayer{PkgDir: "kmipclient", Oracle: "all 31 non-empty client subsets of {1.0..1.4} x all 32 server subsets (descending, ascending and rotated order; plus versions the client did not offer) x {conformant, discovery unsupported, empty list}: adopted version = highest common version, error when none, fallback to 1.0 only if configured",
+		Template: `package kmipclient
+
+import (
+	"context"
+	"testing"
+
+	"github.com/ovh/kmip-go"
+	"github.com/ovh/kmip-go/payloads"
+	"github.com/ovh/kmip-go/ttlv"
+)
+
+func TestGocvReplay(t *testing.T) {
+	all := []kmip.ProtocolVersion{kmip.V1_4, kmip.V1_3, kmip.V1_2, kmip.V1_1, kmip.V1_0}
+	extra := kmip.ProtocolVersion{ProtocolVersionMajor: 2, ProtocolVersionMinor: 0}
+	subset := func(mask int) []kmip.ProtocolVersion {
+		var out []kmip.ProtocolVersion
+		for i, v := range all {
+			if mask&(1<<i) != 0 {
+				out = append(out, v)
+			}
+		}
+		return out
+	}
+	for cm := 1; cm < 32; cm++ {
+		client := subset(cm)
+		for sm := 0; sm < 32; sm++ {
+			for order := 0; order < 4; order++ {
+				server := subset(sm)
+				switch order {
+				case 1: // ascending
+					for i, j := 0, len(server)-1; i < j; i, j = i+1, j-1 {
+						server[i], server[j] = server[j], server[i]
+					}
+				case 2: // rotated
+					if len(server) > 1 {
+						server = append(server[1:], server[0])
+					}
+				case 3: // a version the client never offered comes first
+					server = append([]kmip.ProtocolVersion{extra}, server...)
+				}
+				var best *kmip.ProtocolVersion
+				for _, v := range server {
+					for _, w := range client {
+						if v == w && (best == nil || ttlv.CompareVersions(v, *best) > 0) {
+							vv := v
+							best = &vv
+						}
+					}
+				}
+				c := &Client{supportedVersions: client}
+				c.middlewares = []Middleware{func(next Next, ctx context.Context, msg *kmip.RequestMessage) (*kmip.ResponseMessage, error) {
+					return &kmip.ResponseMessage{Header: kmip.ResponseHeader{ProtocolVersion: msg.Header.ProtocolVersion, BatchCount: 1},
+						BatchItem: []kmip.ResponseBatchItem{ {Operation: kmip.OperationDiscoverVersions, ResultStatus: kmip.ResultStatusSuccess, ResponsePayload: &payloads.DiscoverVersionsResponsePayload{ProtocolVersion: server}} }}, nil
+				}}
+				var err error
+				func() {
+					defer func() {
+						if p := recover(); p != nil {
+							t.Fatalf("GOCV-REPRODUCED: {{.Obligation}}: negotiateVersion panicked (client %v server %v): %v", client, server, p)
+						}
+					}()
+					err = c.negotiateVersion(context.Background())
+				}()
+				if best == nil {
+					if err == nil {
+						t.Fatalf("GOCV-REPRODUCED: {{.Obligation}}: no common version (client %v, server %v) but the client adopted %v", client, server, *c.version)
+					}
+					continue
+				}
+				if err != nil || c.version == nil || *c.version != *best {
+					got := "nil"
+					if c.version != nil {
+						got = c.version.String()
+					}
+					t.Fatalf("GOCV-REPRODUCED: {{.Obligation}}: client %v, server %v: adopted %s (err %v), expected the highest common version %v", client, server, got, err, *best)
+				}
+			}
+		}
+		// discovery unsupported
+		c := &Client{supportedVersions: client}
+		c.middlewares = []Middleware{func(next Next, ctx context.Context, msg *kmip.RequestMessage) (*kmip.ResponseMessage, error) {
+			return &kmip.ResponseMessage{Header: kmip.ResponseHeader{BatchCount: 1}, BatchItem: []kmip.ResponseBatchItem{ {ResultStatus: kmip.ResultStatusOperationFailed, ResultReason: kmip.ResultReasonOperationNotSupported} }}, nil
+		}}
+		err := c.negotiateVersion(context.Background())
+		has10 := cm&(1<<4) != 0
+		if has10 != (err == nil) || (err == nil && *c.version != kmip.V1_0) {
+			t.Fatalf("GOCV-REPRODUCED: {{.Obligation}}: discovery unsupported, client %v: err=%v version=%v", client, err, c.version)
+		}
+	}
+}
+`}
+	replayers["(*kmipclient.Client).negotiateVersion"] = replayers["scenario:C13"]
+	// protocol-violating responses (C12)
+	replayers["scenario:C12"] = &Replayer{PkgDir: "kmipclient", Oracle: "scripted responses (nil payload, payload of another operation, typed-nil payload, wrong header/item counts, every failure status) to Request / Executor / negotiateVersion: always an error or the payload type of the requested operation, never a panic",
+		Template: `package kmipclient
+
+import (
+	"context"
+	"fmt"
+	"testing"
+
+	"github.com/ovh/kmip-go"
+	"github.com/ovh/kmip-go/payloads"
+)
+
+func TestGocvReplay(t *testing.T) {
+	var nilDiscover *payloads.DiscoverVersionsResponsePayload
+	pls := map[string]kmip.OperationPayload{"nil": nil, "right": &payloads.ActivateResponsePayload{UniqueIdentifier: "x"}, "other-op": &payloads.DestroyResponsePayload{UniqueIdentifier: "x"},
+		"request-type": &payloads.ActivateRequestPayload{UniqueIdentifier: "x"}, "typed-nil-discover": nilDiscover, "discover": &payloads.DiscoverVersionsResponsePayload{}}
+	statuses := []kmip.ResultStatus{kmip.ResultStatusSuccess, kmip.ResultStatusOperationFailed, kmip.ResultStatusOperationPending, kmip.ResultStatusOperationUndone, 77}
+	for name, pl := range pls {
+		for _, st := range statuses {
+			for _, shape := range []string{"ok", "count0", "count2", "noitems", "twoitems"} {
+				resp := &kmip.ResponseMessage{Header: kmip.ResponseHeader{BatchCount: 1}, BatchItem: []kmip.ResponseBatchItem{ {Operation: kmip.OperationActivate, ResultStatus: st, ResultReason: kmip.ResultReasonGeneralFailure, ResultMessage: "m", ResponsePayload: pl} }}
+				switch shape {
+				case "count0":
+					resp.Header.BatchCount = 0
+				case "count2":
+					resp.Header.BatchCount = 2
+				case "noitems":
+					resp.BatchItem = nil
+				case "twoitems":
+					resp.BatchItem = append(resp.BatchItem, resp.BatchItem[0])
+					resp.Header.BatchCount = 2
+				}
+				desc := fmt.Sprintf("payload=%s status=%d shape=%s", name, st, shape)
+				v := kmip.V1_4
+				c := &Client{supportedVersions: []kmip.ProtocolVersion{kmip.V1_4}, version: &v}
+				c.middlewares = []Middleware{func(next Next, ctx context.Context, msg *kmip.RequestMessage) (*kmip.ResponseMessage, error) { return resp, nil }}
+				func() {
+					defer func() {
+						if p := recover(); p != nil {
+							t.Fatalf("GOCV-REPRODUCED: {{.Obligation}}: client call panicked on a protocol-violating response (%s): %v", desc, p)
+						}
+					}()
+					r, err := c.Activate("x").ExecContext(context.Background())
+					good := name == "right" && st == kmip.ResultStatusSuccess && shape == "ok"
+					if good != (err == nil) {
+						t.Fatalf("GOCV-REPRODUCED: {{.Obligation}}: Activate with %s: err=%v result=%v", desc, err, r)
+					}
+					if st != kmip.ResultStatusSuccess && shape == "ok" && err == nil {
+						t.Fatalf("GOCV-REPRODUCED: {{.Obligation}}: failed item not surfaced as an error (%s)", desc)
+					}
+					c2 := &Client{supportedVersions: []kmip.ProtocolVersion{kmip.V1_4}, middlewares: c.middlewares}
+					_ = c2.negotiateVersion(context.Background())
+				}()
+			}
+		}
+	}
+}
+`}
+	replayers["prefix:(kmipclient.Executor["] = replayers["scenario:C12"]
+	replayers["(*kmipclient.Client).Request"] = replayers["scenario:C12"]
+	replayers["(*kmipclient.Client).BatchOpt"] = replayers["scenario:C12"]
 	replayers["ttlv.bytesToBigInt"] = &Replayer{PkgDir: "ttlv", Inputs: []ReplayInput{{Name: "V", Expr: "v", Kind: "bytes"}},
 		Oracle: "bytesToBigInt on the model's bytes returns normally and leaves its argument unchanged",
 		Template: strings.Replace(replayPrelude, "{{.Pkg}}", "ttlv", 1) + `
